@@ -338,7 +338,7 @@ public:
         for (int k = 0; k < 8; k++) sim::arena(k)->reset(0, 64);     // once per run; entry points re-chunk
         if (gg.wtype == "int") { if (c08) run_c08<GraphI>(gg, c2, ch, r); else run_c04<GraphI>(gg, c2, ch, r); }
         else { if (c08) run_c08<GraphD>(gg, c2, ch, r); else run_c04<GraphD>(gg, c2, ch, r); }
-        if (c07) { std::vector<std::string> keep; for (auto &c : r.classes) if (c == "stale_descriptor") keep.push_back(c); r.classes = keep; }
+        if (c07) { std::vector<std::string> keep; for (auto &c : r.classes) if (c == "stale_descriptor" || c == "unexpected_exception") keep.push_back(c); r.classes = keep; }
     }
 };
 
